@@ -287,7 +287,7 @@ package syncer
 //@ func (s *Syncer) readDBI
 //@   trusted
 //@   pure
-//@   requires no_filter_hook: s.hooks.FilterReadDBI == nil
+//@   assumes no_filter_hook: s.hooks.FilterReadDBI == nil
 //@   after_call lmdb.(*Txn).OpenDBI#0 ghost loc_got := 0
 //@   after_call lmdb.(*Cursor).Get#0 ghost loc_got := ite(ret2 == nil, 1, 0)
 //@   after_call snapshot.(*DBI).Append#0 ghost loc_got := 0
